@@ -47,13 +47,17 @@ import (
 func init() { props["C06"] = c06 }
 
 const (
-	c06NMain = 3
-	c06NInc  = 2
-	c06NCtx  = 4
+	c06NMain  = 3
+	c06NInc   = 2
+	c06NCtx   = 4
 	c06RecCap = 40000 // per renderer
 )
 
-var c06Clock int64
+var (
+	c06Clock     int64
+	c06RegEvents int64 // +1 at the start and at the end of every Register call of a live name
+	c06InFlight  int64 // Register calls of live names in progress
+)
 
 func c06Tick() int64 { return atomic.AddInt64(&c06Clock, 1) }
 
@@ -192,15 +196,57 @@ func (n *c06Name) publish(way int) string {
 		return fmt.Sprintf("Parse(%q): %v", ver.src, err)
 	}
 	dyntpl.RegisterTplKey(n.frozen(v), tree)
+	atomic.AddInt64(&c06InFlight, 1)
+	atomic.AddInt64(&c06RegEvents, 1)
 	atomic.StoreInt64(&ver.start, c06Tick())
 	c06Register(n, tree, way)
 	atomic.StoreInt64(&ver.end, c06Tick())
+	atomic.AddInt64(&c06RegEvents, 1)
+	atomic.AddInt64(&c06InFlight, -1)
 	return ""
 }
 
+// index is built once after the stress: versions by end time with the running maximum of their start times, and by
+// start time with the running maximum of their end times.
+type c06Idx struct {
+	ends, maxStart []int64
+	starts, maxEnd []int64
+}
+
+func (n *c06Name) index() *c06Idx {
+	ix := &c06Idx{}
+	type iv struct{ s, e int64 }
+	ivs := make([]iv, len(n.vers))
+	for i, o := range n.vers {
+		ivs[i] = iv{atomic.LoadInt64(&o.start), atomic.LoadInt64(&o.end)}
+	}
+	byEnd := append([]iv(nil), ivs...)
+	sort.Slice(byEnd, func(i, j int) bool { return byEnd[i].e < byEnd[j].e })
+	m := int64(math.MinInt64)
+	for _, x := range byEnd {
+		if x.s > m {
+			m = x.s
+		}
+		ix.ends = append(ix.ends, x.e)
+		ix.maxStart = append(ix.maxStart, m)
+	}
+	byStart := append([]iv(nil), ivs...)
+	sort.Slice(byStart, func(i, j int) bool { return byStart[i].s < byStart[j].s })
+	m = int64(math.MinInt64)
+	for _, x := range byStart {
+		if x.e > m {
+			m = x.e
+		}
+		ix.starts = append(ix.starts, x.s)
+		ix.maxEnd = append(ix.maxEnd, m)
+	}
+	return ix
+}
+
 // live reports whether version v of n can have been the current one at some moment of [cs, ce].
-// 0 = live, 1 = stale (a later version was completely registered before cs), 2 = from the future.
-func (n *c06Name) live(v int, cs, ce int64) int {
+// 0 = live, 1 = stale (a version whose Register call started after this one's had returned was completely registered
+// before cs), 2 = from the future (its Register call started after ce).
+func (n *c06Name) live(ix *c06Idx, v int, cs, ce int64) int {
 	if v < 1 || v > len(n.vers) {
 		return 2
 	}
@@ -209,22 +255,31 @@ func (n *c06Name) live(v int, cs, ce int64) int {
 		return 2
 	}
 	myEnd := atomic.LoadInt64(&me.end)
-	for _, o := range n.vers {
-		if o != me && atomic.LoadInt64(&o.start) > myEnd && atomic.LoadInt64(&o.end) < cs {
-			return 1
-		}
+	// versions with end < cs: prefix of ends
+	k := sort.Search(len(ix.ends), func(i int) bool { return ix.ends[i] >= cs })
+	if k > 0 && ix.maxStart[k-1] > myEnd {
+		return 1
 	}
 	return 0
 }
 
 // overlaps: some registration of n was in flight or happened during [cs, ce].
-func (n *c06Name) overlaps(cs, ce int64) bool {
-	for _, o := range n.vers {
-		if atomic.LoadInt64(&o.start) < ce && atomic.LoadInt64(&o.end) > cs {
-			return true
-		}
+func (n *c06Name) overlaps(ix *c06Idx, cs, ce int64) bool {
+	k := sort.Search(len(ix.starts), func(i int) bool { return ix.starts[i] >= ce })
+	return k > 0 && ix.maxEnd[k-1] > cs
+}
+
+// c06WellFormed: cheap inline check — "[kX#V ... kX#V]" with equal head and tail tags.
+func c06WellFormed(out []byte, name string) bool {
+	if len(out) < 2*len(name)+6 || out[0] != '[' || out[len(out)-1] != ']' || !bytes.HasPrefix(out[1:], []byte(name+"#")) {
+		return false
 	}
-	return false
+	sp := bytes.IndexByte(out, ' ')
+	if sp < 0 {
+		return false
+	}
+	tag := out[1:sp]
+	return bytes.HasSuffix(out[:len(out)-1], append([]byte(" "), tag...))
 }
 
 var (
@@ -238,15 +293,19 @@ func c06(r *Run) {
 		"non-trivial = the call overlapped at least one registration of its template or of an included one; distinct by (template#version, include versions, context)"
 	dyntpl.VerifResetRegistry()
 	atomic.StoreInt64(&c06Clock, 0)
+	atomic.StoreInt64(&c06RegEvents, 0)
+	atomic.StoreInt64(&c06InFlight, 0)
 
-	// race-detector build in the background (CPU is mostly idle while the stress sleeps between GOMAXPROCS rounds).
-	raceBin := make(chan string, 1)
-	raceLog := make(chan string, 1)
-	go func() {
-		bin, log := c06BuildRace()
-		raceBin <- bin
-		raceLog <- log
-	}()
+	// ---- race detector first: it is also the canary for the in-process stress (an unprotected map access ends a
+	// Go process with a fatal error that cannot be recovered) ----
+	if bin, blog := c06BuildRace(); bin == "" {
+		r.Dist["race_run_skipped"]++
+		r.Notes = append(r.Notes, "race detector run skipped (race build failed): "+firstLine(blog))
+	} else if c06RunRace(r, bin) {
+		r.Notes = append(r.Notes, "in-process stress skipped: the race-instrumented run already failed and the same workload could kill the harness process")
+		c06ModelTie(r)
+		return
+	}
 
 	names := make([]*c06Name, 0, c06NMain+c06NInc)
 	for i := 0; i < c06NMain; i++ {
@@ -284,6 +343,7 @@ func c06(r *Run) {
 	nReaders, nWriters := 8, 3
 	var recs [][]c06Rec
 	var setupErr atomic.Value
+	var allRenders, quietRenders int64
 	for round, gmp := range gmps {
 		runtime.GOMAXPROCS(gmp)
 		var stop int32
@@ -305,7 +365,7 @@ func c06(r *Run) {
 						runtime.Gosched()
 					}
 					// throttle: keep the number of versions (and of frozen combinations to re-render) moderate
-					time.Sleep(time.Duration(100+rng.Intn(400)) * time.Microsecond)
+					time.Sleep(time.Duration(150+rng.Intn(700)) * time.Microsecond)
 				}
 			}(w)
 		}
@@ -320,7 +380,7 @@ func c06(r *Run) {
 				}
 				var buf bytes.Buffer
 				my := make([]c06Rec, 0, 4096)
-				over := 0
+				over, quiet := 0, 0
 				for atomic.LoadInt32(&stop) == 0 {
 					ki, ci := rng.Intn(c06NMain), rng.Intn(c06NCtx)
 					how := []byte{'k', 'i', 'f'}[rng.Intn(3)]
@@ -330,10 +390,18 @@ func c06(r *Run) {
 					if yield && rng.Intn(4) == 0 {
 						runtime.Gosched()
 					}
+					e0, f0 := atomic.LoadInt64(&c06RegEvents), atomic.LoadInt64(&c06InFlight)
 					cs := c06Tick()
 					err, pan := c06Render(names, ki, how, ctx, &buf)
 					ce := c06Tick()
-					if len(my) < c06RecCap {
+					// keep every render that ran while a registration was going on or went wrong in an obvious way,
+					// and a sample of the quiet ones
+					keep := f0 > 0 || atomic.LoadInt64(&c06RegEvents) != e0 || err != nil || pan != "" ||
+						!c06WellFormed(buf.Bytes(), names[ki].name) || rng.Intn(32) == 0
+					atomic.AddInt64(&allRenders, 1)
+					if !keep {
+						quiet++
+					} else if len(my) < c06RecCap {
 						my = append(my, c06Rec{key: ki, how: how, ci: ci, cs: cs, ce: ce, out: append([]byte(nil), buf.Bytes()...), err: err, pan: pan, gmp: gmp})
 					} else {
 						over++
@@ -343,6 +411,7 @@ func c06(r *Run) {
 						runtime.Gosched()
 					}
 				}
+				atomic.AddInt64(&quietRenders, int64(quiet))
 				if over > 0 {
 					my = append(my, c06Rec{overflow: true, cs: int64(over)})
 				}
@@ -365,6 +434,10 @@ func c06(r *Run) {
 	for _, n := range names {
 		nvers += len(n.vers)
 		r.Dist["versions_"+n.name] = len(n.vers)
+	}
+	idx := map[*c06Name]*c06Idx{}
+	for _, n := range names {
+		idx[n] = n.index()
 	}
 	expCache := map[string][]byte{}
 	cloneSeq := 0
@@ -473,9 +546,9 @@ func c06(r *Run) {
 				r.Violate("conc kind=mixed shape tpl="+n.name, "output is not the output of any combination of versions: "+bad, cse)
 				continue
 			}
-			overl := n.overlaps(rec.cs, rec.ce)
+			overl := n.overlaps(idx[n], rec.cs, rec.ce)
 			for _, in := range incNames {
-				overl = overl || in.overlaps(rec.cs, rec.ce)
+				overl = overl || in.overlaps(idx[in], rec.cs, rec.ce)
 			}
 			key := fmt.Sprintf("%s#%d/%v/c%d", n.name, v, incs, rec.ci)
 			r.Count(key, overl)
@@ -488,10 +561,10 @@ func c06(r *Run) {
 				continue
 			}
 			// liveness of every version shown
-			st := n.live(v, rec.cs, rec.ce)
+			st := n.live(idx[n], v, rec.cs, rec.ce)
 			who := n.name
 			for j, in := range incNames {
-				if s := in.live(incs[j], rec.cs, rec.ce); s > st {
+				if s := in.live(idx[in], incs[j], rec.cs, rec.ce); s > st {
 					st, who = s, in.name
 				}
 			}
@@ -510,7 +583,9 @@ func c06(r *Run) {
 		rec := recs[0][0]
 		r.Sample(map[string]any{"template": names[rec.key].name, "out": string(rec.out), "call_interval": []int64{rec.cs, rec.ce}})
 	}
-	r.Dist["renders"] = renders
+	r.Dist["renders_checked"] = renders
+	r.Dist["renders_total"] = int(atomic.LoadInt64(&allRenders))
+	r.Dist["renders_quiet_only_shape_checked"] = int(atomic.LoadInt64(&quietRenders))
 	r.Dist["renders_overlapping_a_registration"] = nontrivial
 	r.Dist["renders_not_recorded"] = dropped
 	r.Dist["versions_total"] = nvers
@@ -520,15 +595,6 @@ func c06(r *Run) {
 	}
 
 	c06ModelTie(r)
-
-	// ---- race detector ----
-	bin, blog := <-raceBin, <-raceLog
-	if bin == "" {
-		r.Dist["race_run_skipped"]++
-		r.Notes = append(r.Notes, "race detector run skipped (race build failed): "+firstLine(blog))
-		return
-	}
-	c06RunRace(r, bin)
 }
 
 // ---- race detector run ----
@@ -558,7 +624,8 @@ func c06BuildRace() (bin, log string) {
 	return bin, ""
 }
 
-func c06RunRace(r *Run, bin string) {
+// c06RunRace runs the race-instrumented stress; true = it found a race in /repo, a fatal error or a wrong output.
+func c06RunRace(r *Run, bin string) (failed bool) {
 	secs := r.N(3, 20)
 	cmd := exec.Command(bin, "-seconds", strconv.Itoa(secs), "-seed", strconv.FormatInt(r.Seed, 10))
 	cmd.Env = append(os.Environ(), "GORACE=halt_on_error=0 exitcode=0 history_size=2")
@@ -568,7 +635,7 @@ func c06RunRace(r *Run, bin string) {
 	if err := cmd.Start(); err != nil {
 		r.Dist["race_run_skipped"]++
 		r.Notes = append(r.Notes, "race detector run skipped: "+err.Error())
-		return
+		return false
 	}
 	go func() { done <- cmd.Wait() }()
 	select {
@@ -576,6 +643,18 @@ func c06RunRace(r *Run, bin string) {
 		if err != nil && !strings.Contains(errb.String(), "DATA RACE") {
 			r.Dist["race_run_failed"]++
 			r.Notes = append(r.Notes, "racecheck exited with "+err.Error()+": "+firstLine(errb.String()))
+		}
+		if i := strings.Index(errb.String(), "fatal error:"); i >= 0 {
+			msg := errb.String()[i:]
+			what := firstLine(msg)
+			if len(msg) > 3000 {
+				msg = msg[:3000]
+			}
+			if strings.Contains(msg, "/repo/") || strings.Contains(what, "concurrent map") {
+				failed = true
+				r.Violate("conc kind=panic fatal "+what, "the race-instrumented stress died with a Go runtime "+what,
+					map[string]any{"stderr": msg, "rerun": "cd /verif/harness/racecheck && go run -race . -seconds 5"})
+			}
 		}
 	case <-time.After(time.Duration(secs*4+30) * time.Second):
 		_ = cmd.Process.Kill()
@@ -587,6 +666,7 @@ func c06RunRace(r *Run, bin string) {
 			r.Notes = append(r.Notes, l)
 		}
 		if strings.HasPrefix(l, "BAD ") {
+			failed = true
 			r.Violate("conc kind=mixed racecheck", "racecheck (race-instrumented stress) saw a wrong output: "+l, map[string]any{"line": l})
 		}
 	}
@@ -622,12 +702,14 @@ func c06RunRace(r *Run, bin string) {
 			continue
 		}
 		seen[sig] = true
+		failed = true
 		if len(rep) > 3000 {
 			rep = rep[:3000]
 		}
 		r.Violate("conc kind=race at="+sig, "the race detector reports a data race in /repo during concurrent renders and registrations",
 			map[string]any{"report": rep, "rerun": "cd /verif/harness/racecheck && go run -race . -seconds 5"})
 	}
+	return failed
 }
 
 // ---- model tie: sequential histories, Go registry vs interleaving model ----
@@ -682,13 +764,7 @@ func c06ModelTie(r *Run) {
 			k := keys[r.Rng.Intn(len(keys))]
 			if r.Rng.Intn(2) == 0 {
 				ver++
-				src := fmt.Sprintf("<%d>", ver)
-				if r.Rng.Intn(3) == 0 {
-					src += "{% include " + keys[r.Rng.Intn(len(keys))] + " %}"
-				}
-				// registrations carry no include in the model's writer; includes are looked up by readers
 				tree, err, pan := parseSafe([]byte(fmt.Sprintf("<%d>", ver)), false)
-				_ = src
 				if err != nil || pan != "" {
 					r.Internal("C06 model tie: parse failed")
 					return
